@@ -5,6 +5,7 @@
   would have issued before the panic are not modelled (well-formed values never
   panic).
 -/
+import GunYu.Model.Rdb.Float
 import GunYu.Model.Rdb.Dec
 
 namespace GunYu.Rdb
@@ -19,8 +20,8 @@ structure XCfg where
   tgtMinor : Nat := 0
   deriving Repr, Inhabited
 
-/-- the target knows XGROUP CREATECONSUMER (Redis 6.2+) — NOT consulted by the code: it never
-    emits that command (known finding C03-F1), used by the specification side only -/
+/-- the target knows XGROUP CREATECONSUMER (Redis 6.2+): `util.VersionGE(target, "6.2", VersionMinor)`
+    in StreamParser.ExecCmd (session 5: consulted by the code since the repair of C03-F1) -/
 def XCfg.hasCreateConsumer (x : XCfg) : Bool :=
   decide (x.tgtMajor > 6) || (decide (x.tgtMajor = 6) && decide (x.tgtMinor ≥ 2))
 
@@ -120,9 +121,9 @@ def setElems (t : UInt8) (buf : Bytes) : Option (List Bytes) :=
 
 /-! ### zset -/
 
-/-- `ReadFloat` for the scores the model covers: 253 NaN, 254 +Inf, 255 -Inf,
-    or ASCII `[-]digits` with magnitude below 2^53 (strconv.ParseFloat is exact
-    there). Other syntaxes are outside the model (`none`). -/
+/-- `ReadFloat`: 253 NaN, 254 +Inf, 255 -Inf, else the ASCII text parsed by
+    `strconv.ParseFloat(·, 64)` = `parseF64` (Model/Rdb/Float.lean: every decimal text,
+    correctly rounded, overflow = error; session 5 — was: integers below 2^53 only) -/
 def floatStrBits (fs : Bytes) : Option Nat :=
   match fs with
   | [] => none
@@ -130,10 +131,7 @@ def floatStrBits (fs : Bytes) : Option Nat :=
     if u = 253 then some 0x7FF8000000000001
     else if u = 254 then some 0x7FF0000000000000
     else if u = 255 then some 0xFFF0000000000000
-    else
-      match decToNat? (splitSign s).2 with
-      | none => none
-      | some n => if n < 2 ^ 53 then some ((if (splitSign s).1 then 2 ^ 63 else 0) + natToF64Bits n) else none
+    else parseF64 s
 
 def zset1Elems : Nat → Bytes → Option (List (Bytes × Nat))
   | 0, _ => some []
@@ -323,10 +321,12 @@ def consumerPel (key group consumer : Bytes) (nacks : List (Bytes × Nat × Nat)
         some (cmdB b!"XCLAIM" [key, group, consumer, b!"0", id, b!"TIME", natToDec t,
                 b!"RETRYCOUNT", natToDec c, b!"JUSTID", b!"FORCE"] :: cs, r')
 
-/-- the consumers of a group: one XCLAIM per entry of a consumer's PEL; a consumer with an empty
-    PEL leaves NO command ("Empty consumers are discarded", rdb_object.go — known finding
-    C03-F1: Redis' rewriteStreamObject emits XGROUP CREATECONSUMER for it) -/
-def streamConsumers (v3 : Bool) (key group : Bytes) (nacks : List (Bytes × Nat × Nat)) :
+/-- the consumers of a group: one XCLAIM per entry of a consumer's PEL; a consumer with an EMPTY
+    PEL is created with `XGROUP CREATECONSUMER key group consumer` when the target knows the
+    command (`cc` = 6.2+; session 5, repair of known finding C03-F1 — rdb.WithStreamIdleConsumers,
+    set at both production call sites: the model is of the tool as it runs; before the repair
+    such a consumer left no command, "Empty consumers are discarded") -/
+def streamConsumers (cc : Bool) (v3 : Bool) (key group : Bytes) (nacks : List (Bytes × Nat × Nat)) :
     Nat → Bytes → Option (List Cmd × Bytes)
   | 0, bs => some ([], bs)
   | n+1, bs =>
@@ -342,9 +342,11 @@ def streamConsumers (v3 : Bool) (key group : Bytes) (nacks : List (Bytes × Nat 
           match consumerPel key group name nacks np r2 with
           | none => none
           | some (cs, r3) =>
-            match streamConsumers v3 key group nacks n r3 with
+            match streamConsumers cc v3 key group nacks n r3 with
             | none => none
-            | some (cs', r') => some (cs ++ cs', r')
+            | some (cs', r') =>
+              some ((if cc = true ∧ np = 0 then [cmdB b!"XGROUP" [b!"CREATECONSUMER", key, group, name]] else [])
+                      ++ cs ++ cs', r')
 
 def streamGroups (x : XCfg) (v2 v3 : Bool) (key : Bytes)
     (entriesAdded streamLength lastMs lastSeq : Nat) : Nat → Bytes → Option (List Cmd)
@@ -374,7 +376,7 @@ def streamGroups (x : XCfg) (v2 v3 : Bool) (key : Bytes)
               match readLength64 r4 with
               | none => none
               | some (nc, r5) =>
-                match streamConsumers v3 key gname nacks nc r5 with
+                match streamConsumers x.hasCreateConsumer v3 key gname nacks nc r5 with
                 | none => none
                 | some (claims, r6) =>
                   match streamGroups x v2 v3 key entriesAdded streamLength lastMs lastSeq n r6 with
